@@ -143,6 +143,26 @@ func (g *Gen) call(st *State, site ssa.Instruction, c *ssa.CallCommon, rt types.
 		args = append(args, g.value(st, a))
 	}
 	keys, static, pkgPath, name := g.calleeKeys(c)
+	private := false
+	if g.spec != nil {
+		for _, cs := range g.spec.Callees {
+			for _, k := range keys {
+				if cs.Name == k && cs.Private {
+					private = true
+					g.trustedUsed["callee "+cs.Name+" keeps its pointer arguments private (clause `private`, read not proved)"] = true
+				}
+			}
+		}
+	}
+	if !private {
+		// after the call (its precondition is evaluated on the state before the hand-over)
+		defer func() {
+			g.publish(st, recv)
+			for _, a := range args {
+				g.publish(st, a)
+			}
+		}()
+	}
 	if g.monitorCall(st, c, static) {
 		return TupleV{}
 	}
